@@ -10,6 +10,14 @@ import st_nodeacct
 LEVEL = "model_checking"
 
 KNOWN = [
+    {"signature": r"C14_Node\w+ ghost-readd Unevict/Add .*",
+     "what": "Evict + Pipeline of a fraction pod onto another GPU group of the same node (ConsolidateSharedPodInfoToDifferentGPU) "
+             "+ Rollback: unpipeline removes the pod from PodInfos but not the resources of its terminating incarnation, unevict "
+             "then AddTask()s it again -> the pod is accounted twice (Used/Idle/Releasing cpu, pods, per-group memory)"},
+    {"signature": r"C14_Node(Idle|Releasing|Marker) pipegpu \S+ dgpu=idle-\d,rel\+\d dbase=0",
+     "what": "whole-device transfer Idle<->Releasing of shared GPU groups: the guards N < Idle+usedGPUs / N >= Idle+usedGPUs count "
+             "nominated (Pipelined) whole-GPU pods and nominated-only groups as used devices -> Idle.gpu ends below the value "
+             "recomputed from the pods (order dependent; conservative)"},
 ]
 
 
